@@ -668,7 +668,140 @@ fn spmc_exec(stealers: usize, total: usize, r: &mut Rng, miri: bool) -> Result<E
     Ok(ExecOut { ops, overlap: overlap_taken > 0, sig, desc })
 }
 
+/// the same queue driven through `spmc::Queue` directly: owner `push`, any thread `pop` / `bulk_pop`
+fn spmcq_exec(takers: usize, total: usize, r: &mut Rng, miri: bool) -> Result<ExecOut, String> {
+    let reg: Arc<Vec<AtomicU32>> = Arc::new((0..total + takers + 80).map(|_| AtomicU32::new(0)).collect());
+    let q = Arc::new(spmc::Queue::<Tracked>::new());
+    let bar = Arc::new(Barrier::new(takers + 1));
+    let owner_done = Arc::new(AtomicBool::new(false));
+    let stop = Arc::new(AtomicBool::new(false));
+    let mut hs = vec![];
+    for s in 0..takers {
+        let (q, bar, owner_done, stop) = (q.clone(), bar.clone(), owner_done.clone(), stop.clone());
+        let mut sr = Rng::new(r.next());
+        hs.push(std::thread::spawn(move || -> (Vec<Op>, usize) {
+            set_role(1 + s as u32);
+            let mut ops = Vec::new();
+            let mut while_owner_active = 0usize;
+            bar.wait();
+            let mut idle = 0;
+            loop {
+                let c = stamp();
+                let bulk = sr.chance(1, 2);
+                let vals: Vec<u64> = if bulk { q.bulk_pop().into_iter().map(|t| t.value()).collect() } else { q.pop().map(|t| t.value()).into_iter().collect() };
+                let rr = stamp();
+                if !vals.is_empty() {
+                    if !owner_done.load(SeqCst) {
+                        while_owner_active += vals.len();
+                    }
+                    idle = 0;
+                } else {
+                    idle += 1;
+                }
+                ops.push(Op { thread: 1 + s as u32, k: OpK::Pop(vals, bulk), c, r: rr });
+                if stop.load(SeqCst) {
+                    break;
+                }
+                if idle > 0 && (miri || idle % 8 == 0) {
+                    std::thread::yield_now();
+                }
+            }
+            (ops, while_owner_active)
+        }));
+    }
+    set_role(0);
+    bar.wait();
+    let mut ops: Vec<Op> = Vec::new();
+    let mut pushed = 0u64;
+    while (pushed as usize) < total {
+        let big = r.chance(1, 4);
+        let burst = 1 + r.below(if big { 70 } else { 6 });
+        for _ in 0..burst {
+            let c = stamp();
+            q.push(Tracked::new(pushed, &reg));
+            ops.push(Op { thread: 0, k: OpK::Push(pushed), c, r: stamp() });
+            pushed += 1;
+        }
+        if r.chance(1, 3) {
+            let c = stamp();
+            let v = q.pop().map(|t| t.value());
+            ops.push(Op { thread: 0, k: OpK::Pop(v.into_iter().collect(), true), c, r: stamp() });
+        }
+        if miri && r.chance(1, 3) {
+            std::thread::yield_now();
+        }
+    }
+    owner_done.store(true, SeqCst);
+    // flush values let every taker that claimed a slot beyond the tail complete
+    for _ in 0..takers + 1 {
+        let c = stamp();
+        q.push(Tracked::new(pushed, &reg));
+        ops.push(Op { thread: 0, k: OpK::Push(pushed), c, r: stamp() });
+        pushed += 1;
+    }
+    // wait until everything was taken (by the takers or by us)
+    let t0 = std::time::Instant::now();
+    loop {
+        let c = stamp();
+        let v = q.pop().map(|t| t.value());
+        let none = v.is_none();
+        ops.push(Op { thread: 0, k: OpK::Pop(v.into_iter().collect(), true), c, r: stamp() });
+        if none && q.is_empty() {
+            break;
+        }
+        if !miri && t0.elapsed() > Duration::from_secs(20) {
+            return Err("termination: the queue never drained".into());
+        }
+    }
+    stop.store(true, SeqCst);
+    let mut joined = 0;
+    while joined < hs.len() {
+        if hs[joined].is_finished() {
+            joined += 1;
+            continue;
+        }
+        if !miri && t0.elapsed() > Duration::from_secs(20) {
+            return Err(format!("termination: a taker did not finish 20s after the owner pushed {} flush values (claimed slot never completes)", takers + 1));
+        }
+        std::thread::yield_now();
+        if !miri {
+            std::thread::sleep(Duration::from_micros(50));
+        }
+    }
+    let mut overlap_taken = 0;
+    for h in hs {
+        let (o, w) = h.join().map_err(|_| "taker thread panicked (assertion inside the queue)".to_string())?;
+        overlap_taken += w;
+        ops.extend(o);
+    }
+    loop {
+        let c = stamp();
+        let v = q.pop().map(|t| t.value());
+        let none = v.is_none();
+        ops.push(Op { thread: 0, k: OpK::Pop(v.into_iter().collect(), true), c, r: stamp() });
+        if none {
+            break;
+        }
+    }
+    let desc = format!("direct Queue: takers={} values={} (+{} flush) taken by others while the owner was pushing: {}", takers, total, takers + 1, overlap_taken);
+    // owner pops go through the multi-consumer pop here: only exactly-once / batch order / freshness apply
+    check_spmc_opts(&ops, pushed, false).map_err(|e| format!("{} | {} | last ops: {:?}", e, desc, render(&ops, 24)))?;
+    drop(q);
+    for v in 0..pushed as usize {
+        let d = reg[v].load(SeqCst);
+        if d != 1 {
+            return Err(format!("drop: task {} dropped {} times | {}", v, d, desc));
+        }
+    }
+    let (sig, _) = history_sig(&ops);
+    Ok(ExecOut { ops, overlap: overlap_taken > 0, sig, desc })
+}
+
 fn check_spmc(ops: &[Op], pushed: u64) -> V {
+    check_spmc_opts(ops, pushed, true)
+}
+
+fn check_spmc_opts(ops: &[Op], pushed: u64, owner_order: bool) -> V {
     let mut taken: HashMap<u64, (u32, u64)> = HashMap::new();
     let mut push_c: HashMap<u64, u64> = HashMap::new();
     for o in ops {
@@ -692,7 +825,7 @@ fn check_spmc(ops: &[Op], pushed: u64) -> V {
                     return viol(format!("duplicate: task {} obtained by thread {} (op at #{}) and again by thread {} (op at #{})", x, t, s, o.thread, o.c));
                 }
             }
-            if o.thread == 0 {
+            if o.thread == 0 && owner_order {
                 for &x in vs {
                     if let Some(l) = owner_last {
                         if x < l {
@@ -1159,7 +1292,7 @@ fn sites_for(kind: &str) -> Vec<u32> {
     match kind {
         "mpsc" => (1..=8).collect(),
         "spsc" => (10..=15).collect(),
-        "spmc" => (20..=33).collect(),
+        "spmc" | "spmcq" => (20..=33).collect(),
         _ => (35..=41).collect(),
     }
 }
@@ -1254,6 +1387,11 @@ fn main() {
                 let stealers = 1 + r.below(if miri { 2 } else { 4 }) as usize;
                 let total = (if miri { 40 } else { 200 } + r.below(if miri { 80 } else { 600 * scale as u64 })) as usize;
                 spmc_exec(stealers, total, &mut r, miri)
+            }
+            "spmcq" => {
+                let takers = 1 + r.below(if miri { 2 } else { 4 }) as usize;
+                let total = (if miri { 40 } else { 200 } + r.below(if miri { 80 } else { 600 * scale as u64 })) as usize;
+                spmcq_exec(takers, total, &mut r, miri)
             }
             "list" => {
                 let producers = 1 + r.below(if miri { 2 } else { 4 }) as usize;
